@@ -10,6 +10,7 @@ if [ "${SNAPSHOT:-0}" = "1" ]; then
   (cd /verif/sim && CARGO_NET_OFFLINE=true cargo build --release --offline >/dev/null 2>&1) || { echo "build failed"; exit 2; }
   mkdir -p /verif/target/snapshot && cp /verif/target/release/verif-sim /verif/target/snapshot/verif-sim-$$
   RUN="/verif/target/snapshot/verif-sim-$$ check"
+  export VERIF_EVIDENCE_DIR=/verif/target/campaign-evidence-$$; mkdir -p $VERIF_EVIDENCE_DIR
 fi
 for id in $(python3 -c "import json; print(' '.join(c['property_id'] for c in json.load(open('MANIFEST.json'))['checks']))"); do
   s=$(date +%s)
@@ -17,4 +18,4 @@ for id in $(python3 -c "import json; print(' '.join(c['property_id'] for c in js
   echo "$id rc=$rc $(($(date +%s)-s))s $(echo "$out" | grep -E '^summary' | tail -1)"
   echo "$out" | grep -E "^VIOLATION|^HARNESS|what:" | head -4 | cut -c1-300
 done
-[ "${SNAPSHOT:-0}" = "1" ] && rm -f /verif/target/snapshot/verif-sim-$$
+[ "${SNAPSHOT:-0}" = "1" ] && rm -rf /verif/target/snapshot/verif-sim-$$ $VERIF_EVIDENCE_DIR
